@@ -15,6 +15,8 @@ import (
 	"net/http"
 	"net/textproto"
 	"strconv"
+	"regexp"
+	"runtime/debug"
 	"strings"
 	"sync"
 )
@@ -317,3 +319,50 @@ func c03Clip(b []byte) []byte {
 	return b
 }
 
+
+var c03FrameRe = regexp.MustCompile(`(?m)^github\.com/valyala/fasthttp([\w/]*)\.(.+)\(`)
+
+// c03PanicClass names a panic raised by the code under test: the kind of the panic plus the innermost library
+// function (not harness code) on the panicking stack. Call it from the deferred function that recovered p.
+func c03PanicClass(p any) (class, detail string) {
+	msg := fmt.Sprint(p)
+	kind := ""
+	switch {
+	case strings.Contains(msg, "nil pointer dereference"):
+		kind = "nil-pointer-dereference"
+	case strings.Contains(msg, "index out of range"):
+		kind = "index-out-of-range"
+	case strings.Contains(msg, "slice bounds out of range"):
+		kind = "slice-bounds-out-of-range"
+	case strings.Contains(msg, "nil map"):
+		kind = "assignment-to-nil-map"
+	default:
+		var b strings.Builder
+		for _, r := range msg {
+			switch {
+			case r >= 'a' && r <= 'z' || r >= 'A' && r <= 'Z':
+				b.WriteRune(r)
+			case b.Len() > 0 && !strings.HasSuffix(b.String(), "-"):
+				b.WriteByte('-')
+			}
+			if b.Len() >= 48 {
+				break
+			}
+		}
+		kind = strings.Trim(b.String(), "-")
+	}
+	stack := string(debug.Stack())
+	where := "unknown"
+	for _, m := range c03FrameRe.FindAllStringSubmatch(stack, -1) {
+		fn := m[2]
+		if strings.Contains(fn, "c03") || strings.Contains(fn, "c34") || strings.Contains(m[1], "/verif") || strings.HasPrefix(fn, "TestVerif") {
+			continue
+		}
+		where = strings.NewReplacer("(", "", ")", "", "*", "").Replace(fn)
+		break
+	}
+	if len(stack) > 1800 {
+		stack = stack[:1800] + "..."
+	}
+	return "panic:" + kind + "-in-" + where, msg + "\n" + stack
+}
